@@ -218,12 +218,14 @@ def select(q, db):
     if isinstance(q, selectable.CompoundSelect):
         parts = [select(s, db) for s in q.selects]
         names = _out_names(q.selects[0])
-        for s in q.selects[1:]:
-            n = _out_names(s)
+        renamed = []
+        for s_, t in zip(q.selects, parts):
+            n = _out_names(s_)
             if len(n) != len(names):
                 raise SqlInvalid("SELECTs to the left and right of UNION do not have the same number of result columns")
-            if n != names:
-                raise OutsideModel("UNION arms differ in column names/order")
+            # UNION matches columns by position; the result takes the names of the first SELECT
+            renamed.append(Tab([Slot(sl.p, sl.pos, {names[j]: sl.v[n[j]] for j in range(len(names))}) for sl in t.slots], names, t.ordered))
+        parts = renamed
         slots = [Slot(s.p, None, s.v) for t in parts for s in t.slots]
         if q.keyword == selectable._CompoundSelectKeyword.UNION:
             slots = _distinct(slots)
